@@ -695,7 +695,81 @@ impl W {
         field!(pkg2, ctx2, "gip", IpAddr, ip);
         field!(pkg2, ctx2, "gasn", Asn, asn);
         field!(pkg2, ctx2, "gt", Val<Tc>, t);
-        Ok((14, format!("ctx1.b = {}, ctx2.p = {}", ctx.b, ctx2.p)))
+        // a field read after control flow in which only one branch (the else branch, the last arm, a loop
+        // body that may not run) read it before
+        let src3 = "fn ha(k: bool) -> u8 {\n    let w = if k { 1 } else { if a == a { 2 } else { 3 } };\n    a\n}\nfn hb(k: bool) -> u64 {\n    let w = if k { 1 } else { if b == b { 2 } else { 3 } };\n    b\n}\nfn hb2(k: bool) -> u64 {\n    let w = if k { b } else { 1 };\n    w - w + b\n}\nfn hc(k: bool) -> bool {\n    if k { } else { let t = c; }\n    c\n}\nfn hd(k: bool) -> String {\n    let w = if k { \"x\" } else { d };\n    d\n}\nfn he(o: u8?) -> u16 {\n    let w = match o { Some(v) => 1, None => { if e == e { 2 } else { 3 } } };\n    e\n}\nfn hf(k: bool) -> f32 {\n    let w = if k { 1.0 } else { f };\n    f\n}\nfn hl(n: u8) -> u64 {\n    let i = 0u8;\n    let s = 0u64;\n    while i < n {\n        s = s + b;\n        i = i + 1;\n    }\n    s - s + b\n}\nfn hm(o: u8?) -> u64 {\n    match o { Some(v) => { if v > 3 { return b; } }, None => {} }\n    b\n}\n";
+        let mut pkg3 = roto::FileTree::test_file("ctx.roto", src3, 0).compile(&rt1).map_err(|e| ("context:rejected".to_string(), host::render_report(&e)))?;
+        macro_rules! after {
+            ($name:literal, $arg_t:ty, $t:ty, $f:ident, $($arg:expr),+) => {{
+                let f = pkg3.get_function::<fn($arg_t) -> $t>($name).map_err(|e| ("context:get_function".to_string(), format!("{e}")))?;
+                $(
+                    let got = f.call(&mut ctx, $arg);
+                    if !got.same(&ctx.$f) {
+                        return Err((format!("context:after-branch:{}", $name), format!("context field `{}` = {} read as {} by {}({:?})\n{src3}", stringify!($f), ctx.$f.show(), got.show(), $name, $arg)));
+                    }
+                )+
+            }};
+        }
+        after!("ha", bool, u8, a, true, false, true);
+        after!("hb", bool, u64, b, true, false);
+        after!("hb2", bool, u64, b, false, true);
+        after!("hc", bool, bool, c, true, false);
+        after!("hd", bool, RotoString, d, true, false);
+        after!("he", Option<u8>, u16, e, Some(1u8), None::<u8>, Some(2u8));
+        after!("hf", bool, f32, f, true, false);
+        after!("hl", u8, u64, b, 0u8, 2u8, 0u8);
+        after!("hm", Option<u8>, u64, b, Some(1u8), Some(9u8), None::<u8>);
+        Ok((35, format!("ctx1.b = {}, ctx2.p = {}", ctx.b, ctx2.p)))
+    }
+
+    /// registered constants of one name in different places (root, two modules, a nested module, the
+    /// impl blocks of two types): every path reads its own value
+    fn same_named_constants(&self, c: &mut Choices) -> Result<(u64, String), (String, String)> {
+        use roto::{Constant, Impl, Library, Module, Type, location};
+        let reg = |e: roto::RegistrationError| ("constants:registration".to_string(), format!("{e}"));
+        let vals: Vec<u32> = (0..6).map(|_| u32::make(c)).collect();
+        let strs: Vec<RotoString> = (0..3).map(|_| RotoString::make(c)).collect();
+        let mut lib = Library::new();
+        lib.add(Constant::new("X", "", vals[0], location!()).map_err(reg)?.into());
+        lib.add(Constant::new("Y", "", strs[0].clone(), location!()).map_err(reg)?.into());
+        let mut m1 = Module::new("m1", "", location!()).map_err(reg)?;
+        m1.add(Constant::new("X", "", vals[1], location!()).map_err(reg)?);
+        m1.add(Constant::new("Y", "", strs[1].clone(), location!()).map_err(reg)?);
+        let mut inner = Module::new("inner", "", location!()).map_err(reg)?;
+        inner.add(Constant::new("X", "", vals[2], location!()).map_err(reg)?);
+        m1.add(inner);
+        lib.add(m1.into());
+        let mut m2 = Module::new("m2", "", location!()).map_err(reg)?;
+        m2.add(Constant::new("X", "", vals[3], location!()).map_err(reg)?);
+        m2.add(Constant::new("Y", "", strs[2].clone(), location!()).map_err(reg)?);
+        lib.add(m2.into());
+        lib.add(Type::copy::<Val<Tc>>("Tc", "", location!()).map_err(reg)?.into());
+        lib.add(Type::copy::<Val<T8>>("T8", "", location!()).map_err(reg)?.into());
+        let mut i1 = Impl::new::<Val<Tc>>(location!());
+        i1.add(Constant::new("X", "", vals[4], location!()).map_err(reg)?);
+        lib.add(i1.into());
+        let mut i2 = Impl::new::<Val<T8>>(location!());
+        i2.add(Constant::new("X", "", vals[5], location!()).map_err(reg)?);
+        lib.add(i2.into());
+        let rt = Runtime::from_lib(lib).map_err(reg)?;
+        let src = "fn x0() -> u32 { X }\nfn x1() -> u32 { m1.X }\nfn x2() -> u32 { m1.inner.X }\nfn x3() -> u32 { m2.X }\nfn x4() -> u32 { Tc.X }\nfn x5() -> u32 { T8.X }\nfn x1i() -> u32 { import m1.X; X }\nfn x3i() -> u32 { import m2.X; X }\nfn y0() -> String { Y }\nfn y1() -> String { m1.Y }\nfn y2() -> String { m2.Y }\nfn all() -> bool { X == X && m1.X == m1.X && m2.X == m2.X && Tc.X == Tc.X }\n";
+        let mut pkg = roto::FileTree::test_file("consts.roto", src, 0).compile(&rt).map_err(|e| ("constants:rejected".to_string(), host::render_report(&e)))?;
+        let show = format!("X = {vals:?}");
+        for (name, want) in [("x0", vals[0]), ("x1", vals[1]), ("x2", vals[2]), ("x3", vals[3]), ("x4", vals[4]), ("x5", vals[5]), ("x1i", vals[1]), ("x3i", vals[3])] {
+            let f = pkg.get_function::<fn() -> u32>(name).map_err(|e| ("constants:get_function".to_string(), format!("{e}")))?;
+            let got = f.call();
+            if got != want {
+                return Err((format!("constants:same-name:{name}"), format!("{name}() returned {got}, the constant it names was registered as {want} ({show})\n{src}")));
+            }
+        }
+        for (name, want) in [("y0", &strs[0]), ("y1", &strs[1]), ("y2", &strs[2])] {
+            let f = pkg.get_function::<fn() -> RotoString>(name).map_err(|e| ("constants:get_function".to_string(), format!("{e}")))?;
+            let got = f.call();
+            if !got.same(want) {
+                return Err((format!("constants:same-name:{name}"), format!("{name}() returned {}, the constant it names was registered as {}\n{src}", got.show(), want.show())));
+            }
+        }
+        Ok((11, show))
     }
 }
 
@@ -704,7 +778,7 @@ impl WorkerState for W {
         let empty: Vec<u8> = Vec::new();
         let ctl = case.first().unwrap_or(&empty);
         let mut c = Choices::new(ctl);
-        let k = c.below(self.checks.len() + 4);
+        let k = c.below(self.checks.len() + 5);
         if k < self.checks.len() { format!("type {}", self.checks[k].name) } else { "positions / zero-sized positions / narrow integers to host / context".into() }
     }
 
@@ -721,7 +795,7 @@ impl WorkerState for W {
                 }
             }
         }
-        let k = c.below(self.checks.len() + 4);
+        let k = c.below(self.checks.len() + 5);
         eprintln!("@@ctx route={k}");
         let res = if k < self.checks.len() {
             o.classes.push(format!("type:{}", self.checks[k].name));
@@ -735,9 +809,12 @@ impl WorkerState for W {
         } else if k == self.checks.len() + 2 {
             o.classes.push("route:narrow-integers-computed-by-the-script-to-host".into());
             self.narrow_to_host(&mut c).map(|(n, s)| (n, true, s))
-        } else {
+        } else if k == self.checks.len() + 3 {
             o.classes.push("route:context-fields".into());
             self.context(&mut c).map(|(n, s)| (n, true, s))
+        } else {
+            o.classes.push("route:same-named-registered-constants".into());
+            self.same_named_constants(&mut c).map(|(n, s)| (n, true, s))
         };
         match res {
             Ok((n, nt, sample)) => {
@@ -763,7 +840,7 @@ impl Prop for C05P {
         "C05"
     }
     fn rule(&self) -> String {
-        "a macro-built catalogue of ~80 boundary types (20 leaves incl. registered clone/copy types, Option/List/Result/Verdict nestings to depth 3, payloads of 0..32 bytes) x generated edge and random values x routes: Rust->script->Rust identity, Rust->script->registered function->script->Rust, through a local copy, script constructs the value from generated literal text, script compares an incoming value with literal text, registered constants, as elements of a list built by the script and read in Rust, of a list built in Rust and read by the script, and of a Rust-built list extended by the script, a 7-argument position sweep over mixed classes (register vs stack), zero-sized arguments (unit and a zero-sized registered type) before and between other arguments in Rust->script, script->registered function and script->script calls, context structs with permuted field orders; oracle: structural equality computed by the harness (NaN tolerant, lists by content), Tr balance. Non-trivial: value is not the type's default and the type is nested or not a plain 8-byte scalar; distinct by (type, value)".into()
+        "a macro-built catalogue of ~80 boundary types (20 leaves incl. registered clone/copy types, Option/List/Result/Verdict nestings to depth 3, payloads of 0..32 bytes) x generated edge and random values x routes: Rust->script->Rust identity, Rust->script->registered function->script->Rust, through a local copy, script constructs the value from generated literal text, script compares an incoming value with literal text, registered constants, as elements of a list built by the script and read in Rust, of a list built in Rust and read by the script, and of a Rust-built list extended by the script, a 7-argument position sweep over mixed classes (register vs stack), zero-sized arguments (unit and a zero-sized registered type) before and between other arguments in Rust->script, script->registered function and script->script calls, context structs with permuted field orders (each field also read after an if / match / loop in which only the branch not taken, or no iteration, read it before), registered constants of one name in the root, two modules, a nested module and two impl blocks; oracle: structural equality computed by the harness (NaN tolerant, lists by content), Tr balance. Non-trivial: value is not the type's default and the type is nested or not a plain 8-byte scalar; distinct by (type, value)".into()
     }
     fn assumptions(&self) -> Vec<String> {
         vec![
